@@ -688,7 +688,7 @@ pub enum GraphError {
 //!end
 //!type src/core/graph.rs CycleState
 @#[derive(PartialEq, Eq, Structural)]
-⟦pub ⟧enum CycleState {
+pub enum CycleState {
     Unknown,
     Yes(usize),
     No,
@@ -697,9 +697,9 @@ pub enum GraphError {
 //!type src/core/graph.rs Dag
 pub struct Dag {
     // Adjacency list storing dependencies.
-    ⟦pub ⟧adj_list: Vec<Vec<usize>>,
-    ⟦pub ⟧visibility: Vec<bool>,
-    ⟦pub ⟧cycle_state: CycleState,
+    pub adj_list: Vec<Vec<usize>>,
+    pub visibility: Vec<bool>,
+    pub cycle_state: CycleState,
 
     pub label2node: HashMap<String, usize>,
     pub node2label: HashMap<usize, String>,
